@@ -7,6 +7,7 @@ import (
 	"math/rand"
 	"net"
 	"os"
+	"sort"
 	"strings"
 	"time"
 
@@ -43,8 +44,53 @@ func cmdPairs(args []string) {
 			}
 		}
 	}
+	// pairs the table does not list yet, discovered by name among the registered lints: the families the property names are open
+	// (every SAN rule may get an IAN mirror, every subject rule an issuer mirror, every BR DNS-label rule an RFC twin)
+	type xpair struct{ A, B, Cls, Rel string }
+	var extra []xpair
+	listed := map[string]bool{}
+	for _, p := range tbl.Pairs {
+		listed[p.A+"|"+p.B], listed[p.B+"|"+p.A] = true, true
+	}
+	twin := func(n, from, to string) string {
+		if !strings.Contains(n, from) {
+			return ""
+		}
+		base := strings.Replace(n, from, to, 1)
+		for _, pre := range []string{n[:1], "e", "w", "n"} {
+			if m := pre + base[1:]; byName[m] != nil && m != n {
+				return m
+			}
+		}
+		return ""
+	}
+	var regNames []string
+	for n := range byName {
+		regNames = append(regNames, n)
+	}
+	sort.Strings(regNames)
+	for _, n := range regNames {
+		for _, f := range []struct{ from, to, cls string }{{"_ext_san_", "_ext_ian_", "sanian"}, {"_subject_", "_issuer_", "dn"}, {"_dnsname_", "_rfc_dnsname_", "dns"}} {
+			if strings.Contains(n, "_rfc_dnsname_") && f.cls == "dns" {
+				continue
+			}
+			if m := twin(n, f.from, f.to); m != "" && !listed[n+"|"+m] {
+				rel := "same"
+				if n[:1] != m[:1] {
+					rel = "iff"
+				}
+				extra = append(extra, xpair{n, m, f.cls, rel})
+				listed[n+"|"+m], listed[m+"|"+n] = true, true
+			}
+		}
+	}
 	c := corpus.Load()
 	w := ev.Create(out("pairs.ndjson"))
+	xp := []ev.M{}
+	for _, p := range extra {
+		xp = append(xp, ev.M{"a": p.A, "b": p.B, "cls": p.Cls, "rel": p.Rel})
+	}
+	w.Emit(ev.M{"ev": "ExtraPairs", "pairs": xp})
 	type cls struct{ pair, what string }
 	seenCls := map[string]bool{}
 	both := 0
@@ -65,6 +111,13 @@ func cmdPairs(args []string) {
 				}
 			}
 		}
+		xa, xb := make([]int, len(extra)), make([]int, len(extra))
+		for i, p := range extra {
+			xa[i], xb[i] = execOne(byName[p.A], t, cfg).Obs, execOne(byName[p.B], t, cfg).Obs
+			if xa[i] >= 3 && xa[i] <= 6 && xb[i] >= 3 && xb[i] <= 6 {
+				both++
+			}
+		}
 		var sanV, ianV []byte
 		for _, x := range t.Cert.Extensions {
 			switch x.Id.String() {
@@ -81,7 +134,7 @@ func cmdPairs(args []string) {
 				cnCovered = true
 			}
 		}
-		w.Emit(ev.M{"ev": "Pair", "obj": t.ID, "what": what, "a": a, "b": b, "sameSANIAN": sanV != nil && bytes.Equal(sanV, ianV),
+		w.Emit(ev.M{"ev": "Pair", "obj": t.ID, "what": what, "a": a, "b": b, "xa": xa, "xb": xb, "sameSANIAN": sanV != nil && bytes.Equal(sanV, ianV),
 			"sameDN": bytes.Equal(t.Cert.RawSubject, t.Cert.RawIssuer), "cnCovered": cnCovered})
 	}
 	late := time.Date(2024, 3, 1, 0, 0, 0, 0, time.UTC)
@@ -172,7 +225,10 @@ func cmdPairs(args []string) {
 		strings.Repeat("l", 64) + ".example.com", "ab--cd.example.com",
 		// labels whose length differs in bytes and in characters, on both sides of 63
 		strings.Repeat("\xc3\xa9", 40) + ".example.com", strings.Repeat("\xe4\xb8\xad", 22) + ".example.com", strings.Repeat("\xc3\xa9", 31) + "a.example.com", strings.Repeat("\xc3\xa9", 32) + ".example.com",
-		strings.Repeat("l", 63) + ".example.com", strings.Repeat("l", 62) + "\xc3\xa9.example.com"} {
+		strings.Repeat("l", 63) + ".example.com", strings.Repeat("l", 62) + "\xc3\xa9.example.com",
+		// whole names whose length differs in bytes and in characters, on both sides of 253
+		strings.Repeat("\xc3\xa9", 125) + ".com", strings.Repeat("\xc3\xa9", 124) + "a.com", strings.Repeat("a.", 125) + "com", strings.Repeat("a.", 125) + "comm",
+		strings.Repeat("\xe4\xb8\xad.", 63) + "com", strings.Repeat("ab.", 84) + "c"} {
 		b := forge.GN(forge.GNDNS, []byte(s)).Bytes()
 		if !vocabSeen[string(b)] {
 			vocabSeen[string(b)] = true
